@@ -34,6 +34,7 @@ const (
 	shimSync   = "github.com/saucelabs/forwarder/internal/zzverif/vsync"
 	shimAtomic = "github.com/saucelabs/forwarder/internal/zzverif/vsync/vatomic"
 	shimRand   = "github.com/saucelabs/forwarder/internal/zzverif/vsync/vrand"
+	shimPool   = "github.com/saucelabs/forwarder/internal/zzverif/vpool"
 )
 
 func main() {
@@ -50,6 +51,13 @@ func main() {
 		}
 		if len(parts) > 2 {
 			subs = parts[2]
+		}
+		if re == "@poolonly" {
+			if err := poolOnly(filepath.Join(repo, rel), filepath.Join(out, rel)); err != nil {
+				fmt.Fprintf(os.Stderr, "instr: %s: %v\n", rel, err)
+				os.Exit(1)
+			}
+			continue
 		}
 		if err := rewrite(filepath.Join(repo, rel), filepath.Join(out, rel), re, subs); err != nil {
 			fmt.Fprintf(os.Stderr, "instr: %s: %v\n", rel, err)
@@ -195,6 +203,63 @@ func addImport(f *ast.File, name, path string) {
 	}
 	f.Decls = append([]ast.Decl{&ast.GenDecl{Tok: token.IMPORT, Specs: []ast.Spec{spec}}}, f.Decls...)
 	f.Imports = append(f.Imports, spec)
+}
+
+// poolOnly redirects every sync.Pool of the file to the adversarial pool model (engine/vpool) and leaves
+// everything else as it is.
+func poolOnly(src, dst string) error {
+	fset := token.NewFileSet()
+	b, err := os.ReadFile(src)
+	if err != nil {
+		if os.IsNotExist(err) {
+			return nil
+		}
+		return err
+	}
+	f, err := parser.ParseFile(fset, src, b, parser.ParseComments)
+	if err != nil {
+		return err
+	}
+	syncName := ""
+	for _, im := range f.Imports {
+		if p, _ := strconv.Unquote(im.Path.Value); p == "sync" {
+			syncName = "sync"
+			if im.Name != nil {
+				syncName = im.Name.Name
+			}
+		}
+	}
+	if syncName == "" {
+		return nil
+	}
+	n := 0
+	ast.Inspect(f, func(nd ast.Node) bool {
+		if se, ok := nd.(*ast.SelectorExpr); ok {
+			if id, ok := se.X.(*ast.Ident); ok && id.Name == syncName && id.Obj == nil && se.Sel.Name == "Pool" {
+				id.Name = "zzvpool"
+				n++
+			}
+		}
+		return true
+	})
+	if n == 0 {
+		return nil
+	}
+	var buf bytes.Buffer
+	if err := format.Node(&buf, fset, f); err != nil {
+		return err
+	}
+	out := buf.String()
+	// add the import and keep "sync" referenced
+	i := strings.Index(out, "import (")
+	if i < 0 {
+		return fmt.Errorf("no import block")
+	}
+	out = out[:i] + "import zzvpool \"" + shimPool + "\"\n\n" + out[i:] + "\nvar _ " + syncName + ".Locker\n"
+	if err := os.MkdirAll(filepath.Dir(dst), 0o755); err != nil {
+		return err
+	}
+	return os.WriteFile(dst, []byte(out), 0o644)
 }
 
 // ownRange rewrites the header of every range statement over mapExpr inside function fn.
